@@ -487,16 +487,29 @@ func c17Wiring(c *Ctx) {
 		sort.Slice(segs, func(a, b int) bool { return segs[a].off < segs[b].off })
 		ok := len(segs) == 2 &&
 			segs[0].off == 0 && segs[0].n == 4 && segs[0].src == "domainType" && segs[0].srcOff == 0 &&
-			segs[1].off == 4 && segs[1].n == 28 && strings.Contains(segs[1].src, "computeForkDataRoot(") && segs[1].srcOff == 0
+			segs[1].off == 4 && segs[1].n == 28 && strings.Contains(segs[1].src, ".HashTreeRoot()#0") && segs[1].srcOff == 0
 		for _, sg := range segs {
 			detail += sprintf(" [%d,%d)<-%s[%d:]", sg.off, sg.off+sg.n, sg.src, sg.srcOff)
 		}
 		r.Check(ok, "C17/R4", "wc_rotation.computeDomain:concat", "domain = domain_type ‖ fork_data_root[:28]", c.Pos(fn.Pos()), "byte layout of the returned domain is"+detail)
-		fdr := ssax.CallsTo(fn, load.Module+"/"+pkgWC+".computeForkDataRoot")
-		if len(fdr) == 1 {
-			a := fdr[0].Common().Args
-			r.Check(strings.Contains(ssax.Path(a[0]), "forkVersion") && strings.Contains(ssax.Path(a[1]), "genesisValidatorsRoot"), "C17/R4", "wc_rotation.computeDomain:fork-data-args", "compute_fork_data_root(fork_version, genesis_validators_root)", c.PosOf(fdr[0]), ssax.Path(a[0])+", "+ssax.Path(a[1]))
+		// the root is that of ForkData(current_version=fork_version, genesis_validators_root=root)
+		// (computeForkDataRoot is expanded into computeDomain — load.flatten)
+		htr := ssax.Calls(fn, false, func(ci ssa.CallInstruction) bool {
+			return strings.HasSuffix(ssax.FuncID(ssax.CalleeObj(ci)), "entity.(ForkData).HashTreeRoot")
+		})
+		stores := map[string]string{}
+		if len(htr) == 1 {
+			recv := ssax.Resolve(htr[0].Common().Args[0])
+			ssax.Instrs(fn, func(in ssa.Instruction) {
+				if st, ok := in.(*ssa.Store); ok {
+					if fa, ok := st.Addr.(*ssa.FieldAddr); ok && ssax.Resolve(fa.X) == recv && ssax.FieldOf(fa) != nil {
+						stores[ssax.FieldOf(fa).Name()] = ssax.Path(st.Val)
+					}
+				}
+			})
 		}
+		r.Check(len(htr) == 1 && strings.Contains(stores["CurrentVersion"], "forkVersion") && strings.Contains(stores["GenesisValidatorsRoot"], "genesisValidatorsRoot"), "C17/R4", "wc_rotation.computeForkDataRoot:fields", "ForkData(current_version=fork_version, genesis_validators_root=root)", c.Pos(fn.Pos()),
+			sprintf("%d ForkData.HashTreeRoot calls; CurrentVersion=%s GenesisValidatorsRoot=%s", len(htr), stores["CurrentVersion"], stores["GenesisValidatorsRoot"]))
 		// the laid-out local is what is returned
 		retOK := false
 		for _, ret := range ssax.Returns(fn) {
@@ -509,18 +522,6 @@ func c17Wiring(c *Ctx) {
 			}
 		}
 		r.Check(retOK, "C17/R4", "wc_rotation.computeDomain:copy", "the concatenation is what is returned as the 32-byte domain", c.Pos(fn.Pos()), "the success return is not the 32-byte local the bytes were copied into")
-	}
-	if fn := c.Fn("C17/R4", pkgWC, "", "computeForkDataRoot"); fn != nil {
-		stores := map[string]string{}
-		ssax.Instrs(fn, func(in ssa.Instruction) {
-			if st, ok := in.(*ssa.Store); ok {
-				if fa, ok := st.Addr.(*ssa.FieldAddr); ok {
-					stores[ssax.FieldOf(fa).Name()] = ssax.Path(st.Val)
-				}
-			}
-		})
-		r.Check(stores["CurrentVersion"] == "forkVersion" && stores["GenesisValidatorsRoot"] == "genesisValidatorsRoot", "C17/R4", "wc_rotation.computeForkDataRoot:fields", "ForkData(current_version=fork_version, genesis_validators_root=root)", c.Pos(fn.Pos()),
-			"CurrentVersion="+stores["CurrentVersion"]+" GenesisValidatorsRoot="+stores["GenesisValidatorsRoot"])
 	}
 }
 
